@@ -23,7 +23,7 @@ ASSUMPTIONS = ["decimal grids (class B): Brownian increments over intervals whos
                "grid times (unsnapped: 1e-6)"]
 REQUIRED_COUNTERS = ["class_A", "class_B", "multi_output_cases", "noise_diagonal", "noise_scalar", "noise_additive",
                      "noise_general", "loss_subset_not_last", "loss_subset_one_interior", "negative_times",
-                     "chunked_with_extra_state", "far_time_axis", "renamed_methods_cases"]
+                     "chunked_with_extra_state", "far_time_axis", "renamed_methods_cases", "extreme_time_axis"]
 THRESHOLDS = {"A": 1e-9, "B_snapped": 1e-9, "B_unsnapped": 1e-6, "C": 1e-9}
 
 
@@ -61,9 +61,11 @@ def run_case(case):
     # exact grids on time axes far from zero relative to the step (|t|/dt >= 1e5): the times stay exactly
     # representable, so these are class A cases in which any end-of-interval logic that compares times relative to |t|
     # instead of relative to dt shows up as forward and backward passes taking different steps
-    if kind == "dyadic" and rng.random() < 0.3:
+    if kind == "dyadic" and rng.random() < 0.45:
         t0, dt = rng.choice([(1024.0, 2.0 ** -7), (-2048.0, 2.0 ** -6), (64.0, 2.0 ** -11), (4096.0, 2.0 ** -5),
-                             (1048576.0, 2.0 ** -4), (-524288.0, 2.0 ** -5)])  # up to |t|/dt = 1.7e7
+                             (1048576.0, 2.0 ** -4), (-524288.0, 2.0 ** -5), (2097152.0, 2.0 ** -3),
+                             (-1048576.0, 2.0 ** -6)])  # |t|/dt from 1.3e5 up to 6.7e7
+        cnt["extreme_time_axis"] = int(abs(t0) / dt > 1e6)
         nsteps = rng.choice([10, 20, 30])
         cnt["far_time_axis"] = 1
     cnt["negative_times"] = int(t0 < 0)
